@@ -123,13 +123,13 @@ def compare_blob(c, r):
     return dis
 
 
-def run_ensembles(ctx, count, np_, steps):
+def run_ensembles(ctx, count, np_, steps, only=None):
     """particles drawn from the equilibrium keep its mean (the zero-energy bin) and its width
     (variance 1/delta^2, fixed point 1/(delta^2 (1-e1/2))) under the stochastic model: 5-sigma bands"""
     rng = ctx.rng
     tg = ctx.build(harness=("impl_track",))
-    specs = []
-    for i in range(count):
+    specs = list(only) if only is not None else []
+    for i in range(count if only is None else 0):
         n = rng.choice([48, 64, 96])
         h = rng.choice([5.0, 6.0])
         sh = 0.0 if i % 2 == 0 else f32(rng.uniform(-0.75, 0.75))      # zero bin off centre
@@ -169,15 +169,20 @@ def run_ensembles(ctx, count, np_, steps):
                               observed=dict(min=mn, max=mx), expected="[0,%d]" % (s["n"] - 1), sig=dict(kind="ens", clause="inside"))
                 ok = False
                 break
+            # both clauses are judged on the same record (a collapsed ensemble - every particle given the same "random" number -
+            # has lost its width whether or not its mean has drifted away yet)
             if abs(m - yc) > band_m:
                 ctx.violation("impl-oracle", "stochastic tracking does not keep the ensemble mean at the zero-energy bin", case=case,
-                              observed=dict(mean=m), expected="%g +- %g" % (yc, band_m), sig=dict(kind="ens", clause="mean"))
+                              observed=dict(mean=m, variance=v), expected="%g +- %g" % (yc, band_m), sig=dict(kind="ens", clause="mean"))
                 ok = False
-                break
             if abs(v - vk) > band_v:
-                ctx.violation("impl-oracle", "stochastic tracking does not keep the ensemble width of the equilibrium", case=case,
-                              observed=dict(variance=v), expected="%g +- %g" % (vk, band_v), sig=dict(kind="ens", clause="variance"))
+                what = "stochastic tracking does not keep the ensemble width of the equilibrium"
+                if v <= 1e-6 * vk and mx - mn <= 1e-3:
+                    what += " (the ensemble has collapsed onto one point: the same noise for every particle and step)"
+                ctx.violation("impl-oracle", what, case=case,
+                              observed=dict(variance=v, mean=m, min=mn, max=mx), expected="%g +- %g" % (vk, band_v), sig=dict(kind="ens", clause="variance"))
                 ok = False
+            if not ok:
                 break
         ctx.case_done(("ens", s["id"], s["seed"]), ok)
         ctx.count("ens:e1=%g" % e1)
@@ -549,6 +554,11 @@ def replay(ctx, rp):
         b = tc.blob_from_replay(case)
         r = tc.run_blobs(ctx, [b])
         oracle_blob(ctx, b, r[b.cid])
+    elif case.get("kind") == "ens":
+        ctx.rule = "replay of one recorded ensemble (stochastic tracking model, same seed)"
+        fx = lambda v: float.fromhex(v) if isinstance(v, str) and "0x" in v else v
+        spec = {k: fx(case[k]) for k in ("id", "n", "pmin", "pmax", "np", "e1", "steps", "every", "seed")}
+        run_ensembles(ctx, 0, 0, 0, only=[spec])
     elif case.get("kind") == "dyn":
         c = tc.dyn_from_replay(case)
         r = tc.run_dyn(ctx, [c])
